@@ -8,6 +8,7 @@ mod strip;
 mod analyze;
 mod defpasses;
 mod isolate;
+mod dom;
 
 pub fn with_catch<F: FnOnce() -> String + panic::UnwindSafe>(f: F) -> String {
     match panic::catch_unwind(f) {
@@ -69,6 +70,13 @@ fn main() {
                 let reply = with_catch(move || isolate::handle(&line));
                 writeln!(out, "{}", reply).unwrap();
                 out.flush().unwrap();
+            }
+        }
+        "dom" => {
+            for line in stdin.lock().lines() {
+                let line = line.unwrap();
+                let reply = with_catch(move || dom::handle(&line));
+                writeln!(out, "{}", reply).unwrap();
             }
         }
         "defpasses" => {
